@@ -79,8 +79,25 @@ def mpo_tensor(u4, first_state=None, rank3=False):
 
 
 def build_pts(case, variant, dt):
+    """`variant["first_use"]`: another case of the same shape - the process tensors are first filled with ITS
+    tensors and contracted once, then every tensor is overwritten with this case's (set_mpo_tensor on the same
+    objects): results must be those of the current content."""
     import oqupy
     from oqupy.process_tensor import SimpleProcessTensor
+    other = variant.get("first_use")
+    if other is not None:
+        v2 = {k: v for k, v in variant.items() if k != "first_use"}
+        pts = build_pts(other, v2, dt)
+        system = build_system(other)
+        oqupy.compute_dynamics(system, initial_state=np.eye(case["d"], dtype=complex) / case["d"], process_tensor=pts,
+                               progress_type="silent")
+        fresh = build_pts(case, v2, dt)
+        for pt, new in zip(pts, fresh):
+            for r in range(case["n"]):
+                pt.set_mpo_tensor(r, new.get_mpo_tensor(r, transformed=False) if False else new._mpo_tensors[r])
+            if v2.get("caps", "computed") == "computed":
+                pt.compute_caps()
+        return pts
     d = case["d"]
     m = case["m"]
     n = case["n"]
